@@ -283,7 +283,7 @@ def sparse_group_formula_task(T, g):
 
 
 for _g in (0, 1):
-    add_task(['C07', 'C08', 'C19'], f'block_separable:WeightedL1GroupL2.prox_1group[g={_g}]==ST-then-BST', sparse_group_formula_task, strength='B', g=_g)
+    add_task(['C07', 'C08', 'C15', 'C19'], f'block_separable:WeightedL1GroupL2.prox_1group[g={_g}]==ST-then-BST', sparse_group_formula_task, strength='B', g=_g)
 for _k in range(8):
     # group of two features: 4 of its 113 path obligations stay undecided after 7 minutes each (z3 + cvc5): NOT claimed; kept runnable
     # with `--tier extended`, in no MANIFEST tier
